@@ -331,6 +331,34 @@ func (x *Exec) atomicTypedStep(s *State, op string, cur Val, e *ast.CallExpr, t 
 	vt := under(t)
 	arg := func(i int) Val { return x.convertTo(s, x.eval(s, e.Args[i]), vt, e.Pos()) }
 	one := constInt(vt, big1)
+	if tc := x.topContract(); tc != nil && tc.Opts["atomic_nowrap"] != "" {
+		// opt atomic_nowrap: counters held in typed atomics are treated as mathematical integers
+		// (the run in which one wraps around is excluded); recorded as an assumption
+		exact := func(tok token.Token, a, b Val) Val {
+			e := mkAdd(a.S, b.S)
+			if tok == token.SUB {
+				e = mkSub(a.S, b.S)
+			}
+			c := s.define("atomic", sInt, e)
+			s.assume(rangeFact(vt, c))
+			x.eng.note("typed atomic counters of " + x.eng.curTop.name + " are treated as mathematical integers: the execution in which one overflows is excluded (opt atomic_nowrap)")
+			return s.annotate(Val{K: KInt, T: vt, S: c})
+		}
+		switch op {
+		case "Add":
+			n := exact(token.ADD, cur, arg(0))
+			return n, n, true
+		case "Sub":
+			n := exact(token.SUB, cur, arg(0))
+			return n, n, true
+		case "Inc":
+			n := exact(token.ADD, cur, one)
+			return n, n, true
+		case "Dec":
+			n := exact(token.SUB, cur, one)
+			return n, n, true
+		}
+	}
 	switch op {
 	case "Load":
 		cur.T = vt
